@@ -262,14 +262,18 @@ func (t *Transaction) With(name string, readOnly bool, createFn func() (Cachable
 	} else {
 		// The following shared cache lock is released when the transaction is done.
 		s.mu.Lock()
-		t.mu.Lock()
-		t.writtenCaches[name] = s
-		t.mu.Unlock()
 		// defer s.mu.Unlock()
 	}
 	// By unlocking after we have the cache lock, we guarantee that the cache
 	// will not be scrapped by another goroutine.
 	t.manager.mu.Unlock()
+	if !readOnly {
+		// Record the write lock only after releasing the manager lock so that
+		// the transaction lock is never acquired while holding the manager lock.
+		t.mu.Lock()
+		t.writtenCaches[name] = s
+		t.mu.Unlock()
+	}
 	if err := f(s.item); err != nil {
 		t.failed.Store(true)
 		s.scrapped = true
